@@ -4,6 +4,8 @@
 use vstd::prelude::*;
 verus! {
 global size_of usize == 8;
+//@extract consts src/callbacks/common.rs
+//@end
 
 #[allow(unused_macros)] macro_rules! debug { ($($t:tt)*) => { () } }
 #[allow(unused_macros)] macro_rules! info  { ($($t:tt)*) => { () } }
